@@ -29,6 +29,7 @@ type FuncResult struct {
 	Imprecise []string
 	vc       *VC
 	mu       sync.Mutex
+	slicedMiss int
 	Dep      bool // included because a function of the property calls it by contract
 	calls    map[*ssa.Function]bool
 }
@@ -267,6 +268,7 @@ func cmdCheck(args []string) int {
 		return 1
 	}
 	loadS := time.Since(t0).Seconds()
+	eng.tier = *tier
 
 	// select the functions under contract for this property
 	var fns []*ssa.Function
@@ -369,6 +371,7 @@ func cmdCheck(args []string) int {
 			defer wg2.Done()
 			for j := range jobCh {
 				ob := j.ob
+				tStart := time.Now()
 				qy := j.fr.vc.query(ob)
 				ob.SMTSize = len(qy)
 				if dumpRe != nil && dumpRe.MatchString(ob.Name) {
@@ -400,10 +403,42 @@ func cmdCheck(args []string) int {
 					j.fr.mu.Lock()
 					sq := j.fr.vc.queryWith(ob, j.fr.vc.slicedAsserts(ob))
 					j.fr.mu.Unlock()
-					r = runSolver(solvers[0], "(set-option :produce-models true)\n"+sq+"(check-sat)\n", 3)
-					all = append(all, r)
+					j.fr.mu.Lock()
+					skipSliced := j.fr.slicedMiss >= 3 && ob.Kind == "ensures"
+					j.fr.mu.Unlock()
+					if skipSliced {
+						r = SolverResult{Status: "skipped", Solver: "z3-new"}
+					} else {
+						r = runSolver(solvers[0], "(set-option :produce-models true)\n"+sq+"(check-sat)\n", 2)
+						all = append(all, r)
+						if r.Status != "unsat" && r.Status != "sat" {
+							j.fr.mu.Lock()
+							j.fr.slicedMiss++
+							j.fr.mu.Unlock()
+						}
+					}
+					if r.Status != "unsat" && !skipSliced && strings.Contains(qy, "(forall ") && ob.blk == nil {
+						// leveled slices: few quantified assumptions at a time
+						for _, lvl := range []int{2, 4, 7} {
+							j.fr.mu.Lock()
+							lq := j.fr.vc.queryWith(ob, j.fr.vc.slicedAssertsLevel(ob, lvl))
+							j.fr.mu.Unlock()
+							if lq == sq {
+								break
+							}
+							lr := runSolver(solvers[0], "(set-option :produce-models true)\n"+lq+"(check-sat)\n", 2)
+							all = append(all, lr)
+							if lr.Status == "unsat" {
+								r = lr
+								r.Solver = fmt.Sprintf("z3-new(sliced L%d)", lvl)
+								break
+							}
+						}
+					}
 					if r.Status == "unsat" {
-						r.Solver = "z3-new(sliced)"
+						if r.Solver == "z3-new" {
+							r.Solver = "z3-new(sliced)"
+						}
 					} else {
 						// path by path: on one concrete path all state merges collapse
 						j.fr.mu.Lock()
@@ -486,7 +521,7 @@ func cmdCheck(args []string) int {
 					solverCount[a.Solver]++
 				}
 				mu.Unlock()
-				ob.Solver, ob.Time, ob.Output, ob.Model = r.Solver, r.Time, r.Output, r.Model
+				ob.Solver, ob.Time, ob.Output, ob.Model = r.Solver, time.Since(tStart).Seconds(), r.Output, r.Model
 				switch {
 				case ob.MustFail:
 					switch r.Status {
